@@ -98,9 +98,9 @@ void *dbus_realloc (void *memory, size_t bytes)
     {
       PRE (__CPROVER_DYNAMIC_OBJECT (old) && __CPROVER_POINTER_OFFSET (old) == 0, "realloc: argument is a heap block");
       long ocap = (long) (__CPROVER_OBJECT_SIZE (old) / sizeof (void *)), ncap = (long) (bytes / sizeof (void *));
+#define VERIF_KEEP_AT(q) if (0 <= (q) && (q) < ocap && (q) < ncap) nw[q] = old[q]
       if (-2 < verif_gk && verif_gk < (1L << 40))
-        for (long q = verif_gk - 1; q <= verif_gk + 1; q++)   /* three instances, constant bound */
-          if (0 <= q && q < ocap && q < ncap) nw[q] = old[q];
+        { VERIF_KEEP_AT (verif_gk - 1); VERIF_KEEP_AT (verif_gk); VERIF_KEEP_AT (verif_gk + 1); }
       free (old);
     }
   return nw;
